@@ -62,13 +62,21 @@ func phaseSource(fn *FuncInfo, x ast.Expr) ast.Expr {
 // possiblePhases computes which phases obj.Status.Phase may have at node n of
 // fn; when obj is a parameter without local facts the call sites are consulted.
 func possiblePhases(c *Ctx, fn *FuncInfo, n ast.Node, obj ast.Expr, depth int) map[string]bool {
+	return possiblePhasesUnder(c, fn, n, obj, depth, "")
+}
+
+func possiblePhasesUnder(c *Ctx, fn *FuncInfo, n ast.Node, obj ast.Expr, depth int, assume string) map[string]bool {
 	p := c.P
 	out := map[string]bool{}
 	info := fn.Info()
 	for _, ph := range phaseNames {
 		lit := constLit(p, apiPkg, ph)
 		e := NewFactEngine(p, fn)
-		f, err := e.ParseReq(exprString(obj)+".Status.Phase != "+lit, n.Pos())
+		req := exprString(obj) + ".Status.Phase != " + lit
+		if assume != "" {
+			req = "!(" + assume + ") || " + req
+		}
+		f, err := e.ParseReq(req, n.Pos())
 		if err != nil {
 			out[ph] = true
 			continue
@@ -130,6 +138,42 @@ type phaseStore struct {
 	to   string
 	from map[string]bool
 	obj  ast.Expr
+	// assume: for a store of a phase *variable* (`x.Status.Phase = next`), the condition under
+	// which this entry's constant is the one stored (`next == ENIPhaseDetaching`)
+	assume string
+}
+
+// req states r under the entry's assumption.
+func (ps phaseStore) req(r string) string {
+	if ps.assume == "" {
+		return r
+	}
+	return "!(" + ps.assume + ") || (" + r + ")"
+}
+
+// phaseConstsOf: the declared phase constants a phase-typed local is assigned (nil when some
+// definition is not one of them).
+func phaseConstsOf(fn *FuncInfo, x ast.Expr) []types.Object {
+	info := fn.Info()
+	v, ok := identObj(info, x).(*types.Var)
+	if !ok || v.IsField() || v.Pkg() == nil || v.Parent() == v.Pkg().Scope() {
+		return nil
+	}
+	var out []types.Object
+	for _, d := range varDefs(fn, v) {
+		if d.rhs == nil {
+			if _, isDecl := d.node.(*ast.ValueSpec); isDecl {
+				continue // declared without a value and assigned on every path that stores it (checked by the facts)
+			}
+			return nil
+		}
+		o := identObjSel(info, d.rhs)
+		if o == nil || !strings.HasPrefix(o.Name(), "ENIPhase") {
+			return nil
+		}
+		out = append(out, o)
+	}
+	return out
 }
 
 func phaseStores(c *Ctx) []phaseStore {
@@ -143,10 +187,6 @@ func phaseStores(c *Ctx) []phaseStore {
 		if s.RHS == nil || s.InLit {
 			continue
 		}
-		o := identObjSel(s.Fn.Info(), s.RHS)
-		if o == nil || !strings.HasPrefix(o.Name(), "ENIPhase") {
-			continue
-		}
 		// X.Status.Phase
 		sel := s.LHS.(*ast.SelectorExpr)
 		stSel, ok := ast.Unparen(sel.X).(*ast.SelectorExpr)
@@ -154,6 +194,19 @@ func phaseStores(c *Ctx) []phaseStore {
 			continue
 		}
 		src := phaseSource(s.Fn, stSel.X)
+		o := identObjSel(s.Fn.Info(), s.RHS)
+		if o == nil || !strings.HasPrefix(o.Name(), "ENIPhase") {
+			// a phase variable chosen among constants: one entry per constant, under `var == const`
+			seen := map[types.Object]bool{}
+			for _, co := range phaseConstsOf(s.Fn, s.RHS) {
+				if seen[co] {
+					continue
+				}
+				seen[co] = true
+				out = append(out, phaseStore{st: s, to: shortPhase(co.Name()), obj: src, assume: exprString(s.RHS) + " == " + constLit(p, apiPkg, co.Name())})
+			}
+			continue
+		}
 		out = append(out, phaseStore{st: s, to: shortPhase(o.Name()), obj: src, from: nil})
 	}
 	return out
@@ -165,7 +218,7 @@ func c10R1(c *Ctx) {
 	stores := phaseStores(c)
 	c.Floor("C10.R1", "phase stores", 7, len(stores))
 	for _, ps := range stores {
-		from := possiblePhases(c, ps.st.Fn, ps.st.Node, ps.obj, 0)
+		from := possiblePhasesUnder(c, ps.st.Fn, ps.st.Node, ps.obj, 0, ps.assume)
 		var names []string
 		for ph := range from {
 			names = append(names, shortPhase(ph))
@@ -183,7 +236,7 @@ func c10R1(c *Ctx) {
 		if s.RHS == nil || s.InLit {
 			continue
 		}
-		if o := identObjSel(s.Fn.Info(), s.RHS); o == nil || !strings.HasPrefix(o.Name(), "ENIPhase") {
+		if o := identObjSel(s.Fn.Info(), s.RHS); (o == nil || !strings.HasPrefix(o.Name(), "ENIPhase")) && len(phaseConstsOf(s.Fn, s.RHS)) == 0 {
 			c.Bad("C10.R1", "non-constant phase store in "+s.Fn.Key(), p.Pos(s.Node), s.Fn.Key(), "phases are assigned from the declared constants only", exprString(s.RHS))
 		}
 	}
@@ -270,7 +323,7 @@ func c10R3(c *Ctx) {
 		key := fmt.Sprintf("%s: store %s justified", fn.Key(), ps.to)
 		switch fn.Name {
 		case "ReconcilePod.podCreate":
-			c.Require("C10.R3", key, fn, ps.st.Node, "prePodENI.Annotations[types.PodUID] != string(pod.UID)", nil)
+			c.Require("C10.R3", key, fn, ps.st.Node, ps.req("prePodENI.Annotations[types.PodUID] != string(pod.UID)"), nil)
 		case "ReconcilePod.podDelete":
 			// justified at the call sites
 			p.buildCallers()
@@ -281,7 +334,7 @@ func c10R3(c *Ctx) {
 			}
 		case "ReconcilePodENI.gcCRPodENIs":
 			p.Func(podENICtlPkg, "ReconcilePodENI.podRequirePodENI") // anchor: the requirement names the predicate
-			c.Require("C10.R3", key, fn, ps.st.Node, "err != nil || !m.podRequirePodENI(ctx, p)", nil)
+			c.Require("C10.R3", key, fn, ps.st.Node, ps.req("err != nil || !m.podRequirePodENI(ctx, p)"), nil)
 		default:
 			c.Bad("C10.R3", key, p.Pos(ps.st.Node), fn.Key(), "teardown started only from the three known sites", "new site")
 		}
